@@ -25,11 +25,11 @@ import (
 )
 
 const (
-	fPanic  = iota // the handler panics on this request
-	fBad           // an undecodable message
-	fEOF           // abrupt disconnect on a message boundary
-	fEOFmid        // abrupt disconnect inside a message
-	fBadBody       // a defined command whose body does not decode (an AVP declares a length beyond the message)
+	fPanic   = iota // the handler panics on this request
+	fBad            // an undecodable message
+	fEOF            // abrupt disconnect on a message boundary
+	fEOFmid         // abrupt disconnect inside a message
+	fBadBody        // a defined command whose body does not decode (an AVP declares a length beyond the message)
 	nFaults
 )
 
@@ -45,6 +45,10 @@ type c15Scenario struct {
 	faults    []c15Fault
 	acceptErr int // temporary accept errors in a row
 	acceptPos int // before which connection of the accept sequence
+	// how the application installed its handler: 0 a ServeMux of its own in Server.Handler; 1 Server.Handler
+	// left nil and the handler registered with diam.HandleFunc (DefaultServeMux; reports through
+	// diam.ErrorReports); 2 a plain function in Server.Handler (nobody to offer an error report to)
+	install int
 }
 
 func (s c15Scenario) String() string {
@@ -52,7 +56,8 @@ func (s c15Scenario) String() string {
 	for _, f := range s.faults {
 		fs = append(fs, fmt.Sprintf("%s on connection %d before request %d", fNames[f.kind], f.conn, f.pos+1))
 	}
-	return fmt.Sprintf("%d connections x %d requests; faults: %s; %d temporary accept errors before connection %d", s.K, s.perConn, strings.Join(fs, ", "), s.acceptErr, s.acceptPos)
+	return fmt.Sprintf("%d connections x %d requests; faults: %s; %d temporary accept errors before connection %d; handler installed %s", s.K, s.perConn, strings.Join(fs, ", "), s.acceptErr, s.acceptPos,
+		[]string{"on a ServeMux in Server.Handler", "with diam.HandleFunc, Server.Handler nil", "as a plain function in Server.Handler"}[s.install])
 }
 
 const panicMarker = 0x40000000
@@ -66,8 +71,7 @@ func runC15(c *ev.Case, ctx *lib.Ctx, sc c15Scenario, lc *logCapture) {
 		return ev.Sig{"op": op, "faults": strings.TrimSuffix(kinds, "+"), "accept_errors": sc.acceptErr > 0}
 	}
 	before := len(lc.String())
-	mux := diam.NewServeMux()
-	mux.HandleFunc("ALL", func(dc diam.Conn, m *diam.Message) {
+	hf := func(dc diam.Conn, m *diam.Message) {
 		if m.Header.HopByHopID&panicMarker != 0 {
 			panic("handler blew up")
 		}
@@ -76,8 +80,27 @@ func runC15(c *ev.Case, ctx *lib.Ctx, sc c15Scenario, lc *logCapture) {
 			a.AddAVP(pl) // echo the payload: the answer shows which bytes the server read for this request
 		}
 		a.WriteTo(dc)
-	})
+	}
+	mux := diam.NewServeMux()
 	srv := &diam.Server{Handler: mux, Dict: ctx.Parser}
+	errorReports := mux.ErrorReports()
+	switch sc.install {
+	case 0:
+		mux.HandleFunc("ALL", hf)
+	case 1:
+		diam.HandleFunc("ALL", hf)
+		srv.Handler = nil
+		errorReports = diam.ErrorReports()
+		for more := true; more; { // nothing left over from an earlier scenario of this process
+			select {
+			case <-errorReports:
+			default:
+				more = false
+			}
+		}
+	case 2:
+		srv.Handler = diam.HandlerFunc(hf)
+	}
 	ln := memnet.NewListener()
 	serveDone := make(chan error, 1)
 	go func() { serveDone <- srv.Serve(ln) }()
@@ -245,11 +268,14 @@ func runC15(c *ev.Case, ctx *lib.Ctx, sc c15Scenario, lc *logCapture) {
 	reports := 0
 	for more := true; more; {
 		select {
-		case <-mux.ErrorReports():
+		case <-errorReports:
 			reports++
 		default:
 			more = false
 		}
+	}
+	if sc.install == 2 {
+		reportsOffered = 0
 	}
 	if want := min(reportsOffered, 1); reports != want {
 		c.Fail(sig("error-report"), nil, nil, "%d error report(s) readable, %d expected (undecodable input occurred %d times, the channel holds one); %s", reports, want, reportsOffered, desc)
@@ -382,6 +408,8 @@ func TestC15(t *testing.T) {
 	}
 	rec.Suite("placements", len(scs), func(c *ev.Case) {
 		sc := scs[c.I]
+		sc.install = []int{0, 1, 0, 2, 1}[(c.I/2+c.I/20)%5]
+		c.Class("handler-installed=%d", sc.install)
 		k := "none"
 		if len(sc.faults) > 0 {
 			k = fNames[sc.faults[0].kind]
@@ -420,7 +448,8 @@ func TestC15(t *testing.T) {
 		if r.IntN(2) == 0 {
 			sc.acceptErr, sc.acceptPos = 1+r.IntN(4), r.IntN(sc.K+1)
 		}
-		c.Class("random/K=%d/faults=%d/accept-errors=%v", sc.K, len(sc.faults), sc.acceptErr > 0)
+		sc.install = []int{0, 1, 2}[r.IntN(3)]
+		c.Class("random/K=%d/faults=%d/accept-errors=%v/handler-installed=%d", sc.K, len(sc.faults), sc.acceptErr > 0, sc.install)
 		leak := runBubbleWD(t, rec, c, 60*time.Second, func() { runC15(c, ctx, sc, lc) })
 		if leak != "" && !c.Failed() {
 			c.Fail(ev.Sig{"op": "bubble-leak"}, nil, nil, "goroutines left blocked after the scenario: %s; %s", leak, sc.String())
